@@ -1,5 +1,5 @@
 """C20: the family of struct shapes, as ONE table from which both the real `#[derive(ArgParse)]` /
-`#[derive(Subcommand)]` types (harness/src/bin/clishapes.rs) and the TLA+ constant (specs/CliShapes.tla)
+`#[derive(Subcommand)]` types (harness/src/bin/clishapes_gNN.rs, one driver binary per group of 3 shapes) and the TLA+ constant (specs/CliShapes.tla)
 are emitted.  `python3 lib/checks/cli_shapes.py --write` regenerates both files; the check compares the
 files on disk with a fresh emission and fails as a TOOL error if they differ.
 
@@ -346,7 +346,7 @@ def tla_struct(s, ind="  "):
 def emit_tla():
     o = ["---------------------------- MODULE CliShapes ----------------------------",
          "(* GENERATED by lib/checks/cli_shapes.py from the shape table - do not edit.            *)",
-         "(* The same table emits harness/src/bin/clishapes.rs (the real derived parsers).        *)",
+         "(* The same table emits harness/src/bin/clishapes_gNN.rs (the real derived parsers).        *)",
          "(* Shape k of `Shapes` is the struct the driver runs for shape index k; Alpha[k] is its  *)",
          "(* token alphabet (every literal and tag of every level, -h, --help, --zz, the values).  *)",
          "EXTENDS Integers, Sequences", ""]
@@ -555,7 +555,7 @@ fn main() {
     let mut out = Out::new();
     match argv[1].as_str() {
         "helps" => {
-            for s in 1..=NSHAPES {
+            for &s in SHAPE_IDS {
                 for (l, h) in helps_of(s) {
                     out.ev(&json!({"s": s, "lvl": l, "help": h}));
                 }
@@ -577,7 +577,7 @@ fn main() {
             let start: usize = argv.get(3).and_then(|s| s.parse().ok()).unwrap_or(0);
             let flush = argv.get(4).map(String::as_str) == Some("flush");
             let f = std::io::BufReader::new(std::fs::File::open(&argv[2]).unwrap());
-            let helps: Vec<Vec<(Value, String)>> = (0..=NSHAPES).map(|s| if s == 0 { vec![] } else { helps_of(s) }).collect();
+            let helps: Vec<Vec<(Value, String)>> = (0..=MAXSHAPE).map(|s| if SHAPE_IDS.contains(&s) { helps_of(s) } else { vec![] }).collect();
             extern "C" fn on_alarm(_sig: i32) {
                 unsafe { libc::_exit(43) }
             }
@@ -625,20 +625,40 @@ fn main() {
 '''
 
 
-def emit_rust():
-    out = [PRELUDE]
-    tops = []
-    for s in SHAPES:
-        structs = []
-        emit_rust_struct(s, [pascal_to_kebab(s["name"])], s, out, structs)
-        tops.append(s["name"])
-    out.append("const NSHAPES: usize = %d;" % len(SHAPES))
+GROUP_SIZE = 3
+
+
+def groups():
+    """shape indices (1-based) per driver binary: one broken derive expansion must not take the other
+    shapes' drivers down (a shape whose expansion does not compile is an outcome, not a tool error)."""
+    ids = list(range(1, len(SHAPES) + 1))
+    return [ids[k:k + GROUP_SIZE] for k in range(0, len(ids), GROUP_SIZE)]
+
+
+def group_of(s):
+    return (s - 1) // GROUP_SIZE
+
+
+def bin_name(g):
+    return "clishapes_g%02d" % (g + 1)
+
+
+def emit_rust(g):
+    ids = groups()[g]
+    out = [PRELUDE.replace("usage: clishapes ", "usage: %s " % bin_name(g))]
+    out.append("// driver binary %d of %d: shapes %s" % (g + 1, len(groups()), ", ".join("%d %s" % (i, SHAPES[i - 1]["name"]) for i in ids)))
+    out.append("")
+    for i in ids:
+        s = SHAPES[i - 1]
+        emit_rust_struct(s, [pascal_to_kebab(s["name"])], s, out, [])
+    out.append("const SHAPE_IDS: &[usize] = &[%s];" % ", ".join(map(str, ids)))
+    out.append("const MAXSHAPE: usize = %d;" % max(ids))
     out.append("")
     out.append("fn dispatch(s: usize, args: &[&'static UnixStr], helps: &[(Value, String)]) -> Value {")
     out.append("    match s {")
-    for k, n in enumerate(tops):
-        out.append("        %d => run::<%s>(args, helps)," % (k + 1, n))
-    out.append('        _ => panic!("no such shape"),')
+    for i in ids:
+        out.append("        %d => run::<%s>(args, helps)," % (i, SHAPES[i - 1]["name"]))
+    out.append('        _ => panic!("no such shape in this driver"),')
     out.append("    }")
     out.append("}")
     out.append("")
@@ -646,11 +666,11 @@ def emit_rust():
     out.append("/// [k] the struct of its k-th tag, and so on.")
     out.append("fn helps_of(s: usize) -> Vec<(Value, String)> {")
     out.append("    match s {")
-    for k, s in enumerate(SHAPES):
+    for i in ids:
         items = ", ".join("(json!(%s), <%s as ArgParse>::help_printer().to_string())" % (list(lvl), x["name"])
-                          for lvl, x in walk(s))
-        out.append("        %d => vec![%s]," % (k + 1, items))
-    out.append('        _ => panic!("no such shape"),')
+                          for lvl, x in walk(SHAPES[i - 1]))
+        out.append("        %d => vec![%s]," % (i, items))
+    out.append('        _ => panic!("no such shape in this driver"),')
     out.append("    }")
     out.append("}")
     out.append(POSTLUDE)
@@ -658,23 +678,36 @@ def emit_rust():
 
 
 VERIF = os.path.dirname(os.path.dirname(os.path.dirname(os.path.abspath(__file__))))
-RUST_PATH = os.path.join(VERIF, "harness", "src", "bin", "clishapes.rs")
+BIN_DIR = os.path.join(VERIF, "harness", "src", "bin")
 TLA_PATH = os.path.join(VERIF, "specs", "CliShapes.tla")
+
+
+def rust_path(g):
+    return os.path.join(BIN_DIR, bin_name(g) + ".rs")
 
 
 def in_sync():
     """-> list of files that differ from a fresh emission (empty = in sync)."""
     bad = []
-    for path, txt in ((RUST_PATH, emit_rust()), (TLA_PATH, emit_tla())):
+    want = {rust_path(g): emit_rust(g) for g in range(len(groups()))}
+    want[TLA_PATH] = emit_tla()
+    for path, txt in want.items():
         if not os.path.exists(path) or open(path).read() != txt:
             bad.append(path)
+    for n in os.listdir(BIN_DIR):
+        if n.startswith("clishapes") and os.path.join(BIN_DIR, n) not in want:
+            bad.append(os.path.join(BIN_DIR, n) + " (stale)")
     return bad
 
 
 if __name__ == "__main__":
     if "--write" in sys.argv:
-        open(RUST_PATH, "w").write(emit_rust())
+        for n in os.listdir(BIN_DIR):
+            if n.startswith("clishapes"):
+                os.unlink(os.path.join(BIN_DIR, n))
+        for g in range(len(groups())):
+            open(rust_path(g), "w").write(emit_rust(g))
         open(TLA_PATH, "w").write(emit_tla())
-        print("wrote", RUST_PATH, TLA_PATH)
+        print("wrote %d driver sources and %s" % (len(groups()), TLA_PATH))
     else:
         print("out of sync:" if in_sync() else "in sync", in_sync())
